@@ -22,6 +22,9 @@ def run(chk, tier):
         from props import ctor
         ctor.builder_constructors(chk, F, 'R02.0', cfg)
         B.conversion_table(chk, F, 'R02.7', cfg)
+        # R02.11 'r_i for the first i with ..': a response configured for repeated use keeps answering - the multi-use conversion of a composite
+        # converts its parts with the multi-use conversion (a single-use part would make the second match of the segment fail)
+        outputs.conversion_flavour(chk, F, 'R02.11', cfg)
         # R02.10 a producible return value handed to the builder is filed as this clause's response (never dropped on the way)
         B.returner_error_latched(chk, F, 'R02.10', cfg)
         efn, epaths, erows = E.eval_dyn_table(chk, F, 'R02.8.table', cfg)
